@@ -6,7 +6,7 @@ import os
 from . import datasets as D
 
 
-def base_sem(n_spikes, n_templates, n_channels, spike_templates, nsw=3):
+def base_sem(n_spikes, n_templates, n_channels, spike_templates, nsw=3, spike_clusters=None):
     """Smallest well-formed semantic dataset (no raw data, no whitening, no curation).  Template
     waveforms are fixed small integers; nothing in C06 reads them."""
     tmpl = [[[float(((t + 1) * (j + 2) + c) % 7 - 3) for c in range(n_channels)] for j in range(nsw)]
@@ -18,14 +18,15 @@ def base_sem(n_spikes, n_templates, n_channels, spike_templates, nsw=3):
         'n_spikes': n_spikes, 'channel_map': list(range(n_channels)),
         'positions': [[float(16 * (c % 2)), float(20 * c)] for c in range(n_channels)], 'rate': 1024.0,
         'spike_samples': [3 * i + 1 for i in range(n_spikes)], 'spike_templates': list(spike_templates),
-        'spike_clusters': None, 'amplitudes': None, 'shanks': None, 'probes': None, 'wm': None, 'wmi': None,
+        'spike_clusters': list(spike_clusters) if spike_clusters is not None else None, 'amplitudes': None, 'shanks': None, 'probes': None, 'wm': None, 'wmi': None,
         'similar': None, 'features': None, 'template_features': None, 'raw': None, 'templates': tmpl,
     }
 
 
 def features_dataset(inp):
     """abstract 'features' / 'tfeatures' input -> abstract dataset (files)."""
-    sem = base_sem(len(inp['spike_templates']), inp['n_templates'], inp['n_channels'], inp['spike_templates'])
+    sem = base_sem(len(inp['spike_templates']), inp['n_templates'], inp['n_channels'], inp['spike_templates'],
+                   spike_clusters=inp.get('spike_clusters'))
     ds = D.render(sem, None, id_dtype=inp.get('id_dtype', 'uint32'))
     files = ds['files']
     fdt = inp.get('fdtype', 'float32')
@@ -57,7 +58,8 @@ def features_dataset(inp):
 
 def pca_dataset(inp):
     """abstract 'pca' input -> abstract dataset with a stored spike-waveform subset and no feature file."""
-    sem = base_sem(inp['n_spikes'], inp['n_templates'], inp['n_channels'], inp['spike_templates'], nsw=inp['nsamp'])
+    sem = base_sem(inp['n_spikes'], inp['n_templates'], inp['n_channels'], inp['spike_templates'], nsw=inp['nsamp'],
+                   spike_clusters=inp.get('spike_clusters'))
     ds = D.render(sem, None)
     files = ds['files']
     w = inp['w']                                # [stored index][sample][channel]
